@@ -7,6 +7,7 @@ import DaskModel.Model.Match
 import DaskModel.Model.Bytes
 import DaskModel.Model.KeySplit
 import DaskModel.Model.FormatTime
+import DaskModel.Model.ConfigExtIO
 open Dask
 
 /-! ## C17 — config store
@@ -518,6 +519,6 @@ def table : List (String × Handler) :=
    ("typename", hTypename)]
 end C18
 
-def table : List (String × Handler) := C17.table ++ C53.table ++ C51.table ++ C18.table
+def table : List (String × Handler) := C17.table ++ C53.table ++ C51.table ++ C18.table ++ Dask.ConfigExt.handlers
 
 def main : IO Unit := runDriver table
